@@ -1,4 +1,6 @@
-use std::{future::Future, sync::Arc, time::Duration};
+use std::{future::Future, panic::AssertUnwindSafe, sync::Arc, time::Duration};
+
+use futures::FutureExt as _;
 
 use crate::{Actor, DynResult};
 
@@ -12,6 +14,8 @@ impl<A: Actor> Spawner<A> for SmolSpawner {
     where
         F: Future<Output = crate::DynResult<A>> + Send + 'static,
     {
+        // a panic of the actor must not be re-raised in whoever joins it: join yields None like on tokio
+        let future = AssertUnwindSafe(future).catch_unwind();
         let handle = Arc::new(async_lock::Mutex::new(Some(smol::spawn(future))));
         log::trace!("spawning smol task");
 
@@ -21,12 +25,13 @@ impl<A: Actor> Spawner<A> for SmolSpawner {
             log::trace!("joining smol task");
             let handle = Arc::clone(&handle);
             Box::pin(async move {
-                let mut handle: Option<smol::Task<DynResult<A>>> = handle.lock().await.take();
+                let mut handle: Option<smol::Task<std::thread::Result<DynResult<A>>>> =
+                    handle.lock().await.take();
 
                 if let Some(handle) = handle.take() {
                     // TODO: don't eat the error
 
-                    let actor = handle.await.ok();
+                    let actor = handle.await.ok().and_then(Result::ok);
                     log::trace!("smol task completed");
                     actor
                 } else {
